@@ -84,16 +84,43 @@ def extract_hist():
     return "HistUnrecognised", flat
 
 
+def extract_key_binder():
+    """key_binder_redirect_guard: KeyBinder::ProcessKeyEvent declines every key while redirecting_ is set, and
+    PerformKeyBinding sets it around the replay loop (RedirectGuarded); RedirectUnguarded when the replay loop runs
+    without the flag being set; anything else RedirectUnrecognised."""
+    src = _strip_comments(open(os.path.join(vlib.REPO, "src", "rime", "gear", "key_binder.cc")).read())
+    pk = _body(src, r"ProcessResult\s+KeyBinder::ProcessKeyEvent\s*\(\s*const\s+KeyEvent&\s+key_event\s*\)\s*\{")
+    pb = _body(src, r"void\s+KeyBinder::PerformKeyBinding\s*\(\s*const\s+KeyBinding&\s+binding\s*\)\s*\{")
+    if pk is None or pb is None:
+        return "RedirectUnrecognised", "function not found"
+    fk, fb = " ".join(pk.split()), " ".join(pb.split())
+    head_ok = fk.startswith("if (redirecting_ || !key_bindings_ || key_bindings_->empty()) return kNoop;")
+    guarded = ("if (binding.action) { binding.action(engine_); } else { redirecting_ = true; "
+               "for (const KeyEvent& key_event : binding.target) { engine_->ProcessKey(key_event); } redirecting_ = false; }")
+    unguarded = ("if (binding.action) { binding.action(engine_); } else { "
+                 "for (const KeyEvent& key_event : binding.target) { engine_->ProcessKey(key_event); } }")
+    flat = fk[:90] + " ... | " + fb
+    if head_ok and fb == guarded:
+        return "RedirectGuarded", flat
+    if fb == unguarded or (fb == guarded and fk.startswith("if (!key_bindings_ || key_bindings_->empty()) return kNoop;")):
+        return "RedirectUnguarded", flat
+    return "RedirectUnrecognised", flat
+
+
 def generate():
     guard, flat = extract()
     hguard, hflat = extract_hist()
+    kguard, kflat = extract_key_binder()
     out = ["(** GENERATED by gen/eng_facts.py from src/rime/context.cc - do not edit. *)",
            "Inductive delete_guard := DeleteChecked | DeleteUnchecked | DeleteUnrecognised.",
            "(* Context::DeleteCandidate, log statements removed: %s *)" % flat.replace("(*", "( *").replace("*)", "* )"),
            "Definition delete_candidate_guard : delete_guard := %s." % guard,
            "Inductive hist_guard := HistGuarded | HistUnguarded | HistUnrecognised.",
            "(* CommitHistory::Push(composition, input): %s *)" % hflat.replace("(*", "( *").replace("*)", "* )"),
-           "Definition commit_history_guard : hist_guard := %s." % hguard, ""]
+           "Definition commit_history_guard : hist_guard := %s." % hguard,
+           "Inductive redirect_guard := RedirectGuarded | RedirectUnguarded | RedirectUnrecognised.",
+           "(* KeyBinder::ProcessKeyEvent (head) | PerformKeyBinding: %s *)" % kflat.replace("(*", "( *").replace("*)", "* )"),
+           "Definition key_binder_redirect_guard : redirect_guard := %s." % kguard, ""]
     vlib.write_if_changed(os.path.join(vlib.COQ, "Gen", "EngFacts.v"), "\n".join(out))
     return guard, flat
 
